@@ -307,7 +307,15 @@ def usize_capture_vars(body, fam):
                     import parser_rules as _PR
                     _PR.use(fam.fx)
                     pu_ = _PR.rp("parse_usize")
-                    if any(x.get("k") == "Call" and "fn" in x and fam.fx.by_dp.get(x["fn"].get("dp")) == pu_ for x in F.walk(s["init"])):
+                    def reaches_parse_usize(x):
+                        if x.get("k") != "Call" or "fn" not in x:
+                            return False
+                        tgt = fam.fx.by_dp.get(x["fn"].get("dp"))
+                        if tgt == pu_:
+                            return True
+                        # a private helper wrapped around parse_usize (`:number` group extracted into a function)
+                        return tgt in fam.fx.bodies and fam.fx.bodies[tgt]["krate"] == "proguard" and pu_ in fam.fx.reachable([tgt])
+                    if any(reaches_parse_usize(x) for x in F.walk(s["init"])):
                         if first["name"] not in out:
                             out.append(first["name"])
     return out
